@@ -71,11 +71,33 @@ def gen_cases(ctx, rng, count):
         struct = sorted(v for v in vs if rng.random() < 0.5) if rng.random() < 0.15 else []
         # the same number of samples under another sampling period: bounds written as durations (2 s period: [2k]; 500 ms: [500k ms])
         period = rng.choice([(2, "s"), (500, "ms")]) if rng.random() < 0.2 and any(x[0] in ("tb1", "tb2") for x in F.subformulas(f)) else None
-        cases.append({"stream": stream, "f": f, "n": n, "data": data, "decl": dvars, "struct": struct, "period": period})
+        render = None
+        if period is None and rng.random() < 0.15 and any(x[0] in ("tb1", "tb2") for x in F.subformulas(f)) and not struct:
+            # every bound spelled with explicit units (either / both ends, possibly two different units, declared constants)
+            # under a random default unit and sampling period
+            from . import c08
+            u_, p_, pu_ = rng.choice(c08.configs(rng))
+            render = [rng.randint(0, 10 ** 6), u_, str(p_), pu_]
+        cases.append({"stream": stream, "f": f, "n": n, "data": data, "decl": dvars, "struct": struct, "period": period, "render": render})
     return cases
 
 
+def rendered(case):
+    """(text, keyword arguments) of a case whose bounds are spelled with units."""
+    import random
+    from fractions import Fraction
+    from . import c08
+    seed, unit, period, punit = case["render"]
+    period = Fraction(period)
+    consts = []
+    text = c08.render(random.Random(seed), case["f"], unit, period * c08.NS[punit], [], False, consts)
+    return text, dict(unit=unit, sampling=(int(period) if period.denominator == 1 else float(period), punit, 0.1), consts=consts,
+                      limit=8.0, timeout_is_outcome=True)
+
+
 def spec_text(case):
+    if case.get("render"):
+        return rendered(case)[0]
     per = case.get("period")
     if not per:
         return "out = " + F.to_text(case["f"])
@@ -86,6 +108,8 @@ def impl_eval(case, time=None):
     kw = {}
     if case.get("period"):
         kw["sampling"] = (case["period"][0], case["period"][1], 0.1)
+    if case.get("render"):
+        kw = rendered(case)[1]
     return impl.eval_offline_discrete(spec_text(case), case["decl"], case["data"], case["n"], time=time, struct=case.get("struct") or (), **kw)
 
 
@@ -94,7 +118,7 @@ def check_case(ctx, case, model_off, model_rho, model_gen=None):
     f, n, data = case["f"], case["n"], case["data"]
     out = impl_eval(case)
     text = spec_text(case)
-    rep = {"period": case.get("period"), "struct": list(case.get("struct") or ()), "spec": text, "declare": case["decl"], "data": data, "n": n, "formula": F.to_proto(f), "monitor": "discrete offline",
+    rep = {"render": case.get("render"), "period": case.get("period"), "struct": list(case.get("struct") or ()), "spec": text, "declare": case["decl"], "data": data, "n": n, "formula": F.to_proto(f), "monitor": "discrete offline",
            "model_evalOff": model_off, "model_rho": model_rho, "impl": out}
     if model_rho[0] == "undef":
         expected = None
@@ -265,7 +289,7 @@ def case_of_replay(obj):
     f = F.from_proto(obj["formula"])
     data = {k: [float(x) for x in v] for k, v in obj["data"].items()}
     return {"stream": "replay", "f": f, "n": obj["n"], "data": data, "decl": obj.get("declare") or sorted(data),
-            "struct": obj.get("struct") or [], "period": obj.get("period")}
+            "struct": obj.get("struct") or [], "period": obj.get("period"), "render": obj.get("render")}
 
 
 def replay(ctx, obj):
